@@ -26,7 +26,7 @@ from vlib import advexec, gen, runner, storetrace
 
 PROPERTY = "C07"
 LEVEL = "exploration"
-TIMEOUT = {"quick": 900, "thorough": 5400}
+TIMEOUT = {"quick": 1500, "thorough": 7200}
 RULE = (
     "recipes from vlib.gen.Gen (independent branches, diamonds, multi-output ops, chains with unequal task counts, "
     "rechunk stages; mostly unoptimised so that operations communicate through storage) x executors {single-threaded, "
